@@ -8,7 +8,7 @@ CFG = dict(
          "step. Schedules per case: `seq` (no gates: 1-4 Stop calls racing each other and the source's own termination, 1-3 start/stop rounds on "
          "the same object, optional writing), `rnd` (every gate site gated, a seeded scheduler picks which parked goroutine moves next; 1-4 Stops, "
          "requests, self-termination by error block), `stopAt i` (Stop issued while Start is parked between two of its steps), `reuse` (Stop parked "
-         "before RunDoneWait across a restart), `selfW` (source ends by itself while writing), `udpFail`/`udpBusy` (failed Abaco Start), `startRunFail` (StartRun of the scripted source fails "
+         "before its wait across a restart: it must return when released), `selfW` (source ends by itself while writing), `udpFail`/`udpBusy` (failed Abaco Start), `startRunFail` (StartRun of the scripted source fails "
          "1-2 times AFTER RunDoneActivate, then a Start succeeds on the same object, optionally a request, then 1-2 Stops). `stopDecided` (a Stop parked INSIDE its lock section "
          "after reading Active, site stop.onActive, while the source ends by itself; then a Start on the same object). `rpc` (the life cycle through the real SourceControl.Start / "
          "SourceControl.Stop on the sources SourceControl owns - ErroringSource parked before its error block so the schedule picks when it ends by itself, "
@@ -30,7 +30,7 @@ CFG = dict(
                   "the verifPoint hooks (build tag verif) report arrivals truthfully; the trace order of two causally unordered log entries is normalised "
                   "by the driver (block hand-off logged only by the receiver)"],
     assumptions=["theorems that need it assume the environment discipline E: Start calls and Stop calls do not overlap each other (Stops overlap each other, "
-                 "requests and self-termination); without E two known findings apply (Stop on a Starting source panics; a parked Stop waits on the next run)",
+                 "requests and self-termination); without E one known finding applies (Stop on a Starting source panics); the second one (a parked Stop waited on the next run) was repaired (d9d435f) and is now the theorem C10_wait_own_run for ALL interleavings",
                  "liveness (every Stop returns) is proved for the model only (no stuck state + strictly decreasing measure); on the Go code it is observed on "
                  "the explored schedules with a watchdog",
                  "Abaco/Lancero producers are modelled by the common producer automaton; only the failed-start path of AbacoSource is exercised (no packet source)"],
@@ -45,8 +45,9 @@ MANIFEST = dict(
          "its decision 'Active' and its write 'Stopping' holds the state lock: no other lock section is enabled, the write lands on an Active source), "
          "C10_no_stuck_state (a call in flight => some non-environment step enabled), C10_stop_measure / C10_stop_bounded (a natural-number measure strictly "
          "decreases on every step of the shut-down => every Stop returns under a fair schedule), C10_after_stops_inactive, C10_failed_start_restartable (failure before RunDoneActivate), C10_failed_startrun_restartable (failure after it: activation undone), "
-         "C10_restart; C10_no_crash / C10_wait_own_run are proved under the environment discipline E (Start and Stop calls do not overlap) and their unrestricted "
-         "forms are refuted by proved counterexamples (two known findings). The model is tied to the code on every run by trace conformance: real sources are "
+         "C10_restart; C10_no_crash is proved under the environment discipline E (Start and Stop calls do not overlap) and its unrestricted "
+         "form is refuted by a proved counterexample (known finding: Stop on a Starting source panics); C10_wait_own_run (a Stop caller waits for the run IT stopped, "
+         "returns when that run is over even if a new Start succeeded meanwhile) holds for every interleaving since the repair d9d435f. The model is tied to the code on every run by trace conformance: real sources are "
          "started/stopped through the real entry points under forced and random interleavings, the logged verifPoint trace must be accepted by the model and the "
          "observed outcomes (returns, GetState, goroutine census, writing flag, port re-bindable) must equal the model's and satisfy the oracle.",
     note="Trusted: Lean 4.33 kernel (axioms propext, Classical.choice, Quot.sound only; audited every run); the hand-written transition system is tied to the Go code "
@@ -54,7 +55,7 @@ MANIFEST = dict(
          "of the MODEL; liveness is proved for the model (well-founded measure under a fairness assumption on select) and only OBSERVED on the real code (watchdog). "
          "Go scheduler, sync and channel semantics are assumptions of the model; critical sections of sourceStateLock are atomic steps. Defects found and repaired: "
          "writing left active after self-termination (8f9149d), failed Abaco Start keeps UDP sockets (68e3d92), Abaco UDP reader goroutine never exits (6d574d1); "
-         "known findings: Stop on a Starting source panics; a Stop parked before RunDoneWait waits on the next run.",
+         "a delayed Stop waiting on the next run (d9d435f); known finding: Stop on a Starting source panics.",
     technique="Lean 4 invariants / measure over a labelled transition system; tied to the Go code by trace conformance and outcome comparison under forced interleavings",
 )
 
@@ -79,8 +80,11 @@ THEOREMS = [
     ("DastardV.Props.C10", "DastardV.C10.C10_rpc_restart_after_stops"),
     ("DastardV.Props.C10", "DastardV.C10.C10_no_crash_partial"),
     ("DastardV.Props.C10", "DastardV.C10.C10_no_crash_counterexample"),
-    ("DastardV.Props.C10", "DastardV.C10.C10_wait_own_run_partial"),
-    ("DastardV.Props.C10", "DastardV.C10.C10_wait_own_run_counterexample"),
+    ("DastardV.Props.C10", "DastardV.C10.C10_wait_own_run"),
+    ("DastardV.Props.C10", "DastardV.C10.C10_wait_own_run_full_holds"),
+    ("DastardV.Props.C10", "DastardV.C10.C10_deactivate_releases_waiters"),
+    ("DastardV.Props.C10", "DastardV.C10.C10_released_stop_returns"),
+    ("DastardV.Props.C10", "DastardV.C10.C10_stop_waited_inactive"),
 ]
 
 # hooks in /repo this check relies on (all `verif hooks:` commits, build tag verif, add-only)
